@@ -86,7 +86,7 @@ def run_audit(pid, mod, load_fn, max_patches=None):
                     r.config = 'quick'
                     load_fn(pid, mod, lines[-1], r, 'thorough', 'quick')
                     fails = ['rule=%s instance=%s: %s' % (o['rule'], o['key'], o['detail'][:160]) for o in r.obligations if not o['ok']]
-                    known = {k[2] for k in __import__('report').load_known() if k[0] == pid}
+                    known = {k[2] for k, e in __import__('report').load_known().items() if k[0] == pid and e.get('status') == 'known'}
                     fails_new = [f for f in fails if not any(('instance=%s:' % k) in f for k in known)]
                     if p['expect'] is None:
                         ok = not fails_new
